@@ -22,7 +22,8 @@ RULE = ("loops: un in {M+1, 2M-1, 2M, 2M+1, 3M-1, 3M, 3M+1, 5M} (M = MUL_BASECAS
         "at 0 / M-1 / M / M+vn-1 / M+vn / un-1; v = B^vn-2, B^vn-B+1; operands built backwards so that the add-back carry of every second chunk ripples "
         "through all M-1 limbs above it (chunk c with c*(B^vn-1) = B^(M+vn-1) - 1 - ... , preceded by an all-ones chunk); random; each as mpn_mul and mpn_mul_chunkmodel. "
         "Slide loop: vn in [KAR, TOOM8H) with vn <= ceil(un/4) (q*vn + r, r in {0, 1, vn/2, vn-1}) and un+vn < 2*TOOM3 (immediate and repeated swaps), "
-        "data all ones / B^k-2 / runs / random, as mpn_mul and mpn_mul_model")
+        "data all ones / B^k-2 / runs / random, plus sizes (3k, 2k) with data searched (value-level mirror of the loop) so that a carry stays pending in t, "
+        "t == 2 reaches mpn_add_1 and a carry leaves the window in the l > 2vn branch; as mpn_mul and mpn_mul_model")
 
 _cache = {}
 def _thresholds(ctx):
@@ -65,6 +66,34 @@ def worst_u(un, vn, mx):
         i += mx; k += 1
     out += [M] * (un - i) if k % 2 == 0 else worst_chunk(un - i, vn)
     return out
+
+def slide_stats(u, v, KT):
+    """value-level mirror of mul.c:210-277 on limb lists; returns the set of rare events it meets:
+    "A2c" (l == 2vn with a carry, so t stays pending), "A3c" (l > 2vn, carry out of the window), "t2" (t == 2 enters mpn_add_1 at :240),
+    "tfin" (t pending into the last piece).  Used to pick data for the directed slide-loop cases."""
+    ev = set()
+    Bp = lambda k: 1 << (64 * k)
+    un, vn, U, V = len(u), len(v), _val(u), _val(v)
+    w = ((U % Bp(vn)) * V) >> (64 * vn); l = vn; U >>= 64 * vn; un -= vn; t = 0
+    if un < vn: U, V, un, vn = V, U, vn, un
+    while vn >= KT and vn > 0:
+        ws = (U % Bp(vn)) * V
+        if l <= 2 * vn:
+            s = w + ws % Bp(l); c = s >> (64 * l); s %= Bp(l); t += c
+            if l != 2 * vn:
+                if t == 2: ev.add("t2")
+                h = (ws >> (64 * l)) + t; t = h >> (64 * (2 * vn - l)); w = s + ((h % Bp(2 * vn - l)) << (64 * l)); l = 2 * vn
+            else:
+                w = s
+                if c: ev.add("A2c")
+        else:
+            s = (w % Bp(2 * vn)) + ws; c = s >> (128 * vn); h = (w >> (128 * vn)) + c; c2 = h >> (64 * (l - 2 * vn)); t += c2
+            if c2: ev.add("A3c")
+            w = (s % Bp(2 * vn)) + ((h % Bp(l - 2 * vn)) << (128 * vn))
+        w >>= 64 * vn; l -= vn; U >>= 64 * vn; un -= vn
+        if un < vn: U, V, un, vn = V, U, vn, un
+    if vn and t: ev.add("tfin")
+    return ev
 
 def gen_ops(rng, tier, ctx=None):
     T = _thresholds(ctx)
@@ -121,6 +150,18 @@ def gen_ops(rng, tier, ctx=None):
         if not thorough and un + vn > 600: datas = [datas[0], datas[rng.randrange(1, 5)]]
         for u, v in datas:
             yield from both("mpn_mul_model", u, v)
+    # directed: sizes (3k, 2k) reach l == 2*vn after the first swap; search for data where the carry stays pending in t and meets a
+    # second carry at the same place (t == 2 handed to mpn_add_1), and where a carry leaves the window in the l > 2*vn branch
+    for un, vn in ((3 * KAR, 2 * KAR), (60, 40), (90, 60), (114, 76), (100, 60), (5 * KAR + 3, 2 * KAR + 1)):
+        if not (KAR <= vn < un and un + vn < 2 * T3 and vn < T8): continue
+        want = {"t2": 2, "A2c": 1, "A3c": 1, "tfin": 1}
+        for _ in range(400 if not thorough else 1500):
+            if not any(want.values()): break
+            u = rand_limbs(rng, un, rng.choice(["uniform", "runs"])); v = rand_limbs(rng, vn, rng.choice(["uniform", "runs"]))
+            hit = [e for e in slide_stats(u, v, KAR) if want.get(e, 0) > 0]
+            if hit:
+                for e in hit: want[e] -= 1
+                yield from both("mpn_mul_model", u, v)
     # ---- single calls through the dispatching model (basecase, mpn_mul_n, unbalanced Toom)
     for un, vn in ((1, 1), (7, 3), (KAR - 1, KAR - 1), (KAR, KAR), (MX, KAR - 1), (T3, T3), (200, 60), (200, 110), (200, 180), (300, 140), (T8 - 1, T8 - 1)):
         if 1 <= vn <= un:
